@@ -47,7 +47,18 @@ func runFCDecision(c *core.Ctx) {
 				be, ok := an.Unparen(as.Rhs[0]).(*ast.BinaryExpr)
 				return ok && be.Op == token.QUO
 			}, bools: []string{"pc==$.pc"}, ints: map[string]string{"idx": "", "count": "", "ceiling": ""}, intDom: map[string][]int64{"idx": {-1, 0, 1}, "count": {0, 1, 2, 3}, "ceiling": {1, 2, 3}},
-			ref: func(a dtAtoms) bool { return a.I("idx") >= 0 && a.I("count") >= a.I("ceiling") }},
+			ref: func(a dtAtoms) bool { return a.I("idx") >= 0 && a.I("count") >= a.I("ceiling") },
+			// the digit's bound read from the record itself (through a pointer to it, say) instead of a local copy
+			alts: []dtRow{{find: func(info *types.Info, n ast.Node) bool {
+				as, ok := n.(*ast.AssignStmt)
+				if !ok || len(as.Lhs) != 1 || len(as.Rhs) != 1 || as.Tok != token.ASSIGN {
+					return false
+				}
+				be, ok := an.Unparen(as.Rhs[0]).(*ast.BinaryExpr)
+				return ok && be.Op == token.QUO
+			}, bools: []string{"pc==$.pc"}, ints: map[string]string{"idx": "", "count": "", "$.counterStack[idx].ceiling": ""},
+				intDom: map[string][]int64{"idx": {-1, 0, 1}, "count": {0, 1, 2, 3}, "$.counterStack[idx].ceiling": {1, 2, 3}},
+				ref:    func(a dtAtoms) bool { return a.I("idx") >= 0 && a.I("count") >= a.I("$.counterStack[idx].ceiling") }}}},
 		{fn: "NextFairnessCounter", key: "truncates-on-id-or-bound-change", why: "the digits below a choice are dropped exactly when the choice at this depth is a different one or its number of alternatives changed",
 			find: func(info *types.Info, n ast.Node) bool {
 				rhs, ok := fieldIsAssigned(info, n, stack)
